@@ -69,11 +69,14 @@ def build(desc, poly=False):
         if sd.get('clone_of') is not None:
             key = sd['clone_of']
             if key not in templates:
-                tpl = Stage(t0=0, T=1)
+                th = sd.get('tpl_h') or (('num', Fr(0)), ('num', Fr(1)))
+                tpl = Stage(t0=hv(th[0]), T=hv(th[1]))
                 bt = declare(sd['spec'], sd['cfg'], poly=poly, ocp=None, stage=tpl)
                 templates[key] = (tpl, bt)
             tpl, bt = templates[key]
-            st = ocp.stage(tpl, t0=hv(sd['t0']), T=hv(sd['T']))
+            # only the listed horizon entries are overridden; the others are inherited from the template (sd['t0'], sd['T'] hold the effective values)
+            okw = {k_: hv(sd[k_]) for k_ in sd.get('override', ('t0', 'T'))}
+            st = ocp.stage(tpl, **okw)
             b = copy.copy(bt)
             b.spec, b.cfg = spec, sd['cfg']
             b.ocp, b.stage = ocp, st
@@ -142,6 +145,18 @@ def instances(tier, seed):
             coupling = [('cont', i, i + 1) for i in range(len(stages) - 1)] + [('wge', 0)]
             add(kind='clone', desc=dict(stages=stages, coupling=coupling, parent=[('w2',)]))
             n += 1
+    # templates with their own (non-zero) window; clones overriding both, one or none of t0/T, including the override t0 = 0
+    tph = (('num', Fr(1, 2)), ('num', Fr(3)))
+    variants = [(('t0', 'T'), (('num', Fr(0)), ('num', Fr(3, 2)))), (('t0',), (('num', Fr(0)), tph[1])), (('T',), (tph[0], ('free', Fr(2)))),
+                ((), tph), (('t0',), (('free', Fr(1)), tph[1])), (('t0', 'T'), (('num', Fr(2)), ('num', Fr(1))))]
+    for vi in range(0, len(variants), 2):
+        tplspec = stage_model(vi)
+        cfg = cfgs[vi % len(cfgs)]
+        stages = []
+        for ov, hh in variants[vi:vi + 2]:
+            stages.append(dict(spec=tplspec, cfg=cfg, t0=hh[0], T=hh[1], clone_of='tplw', tpl_h=tph, override=ov))
+        coupling = [('cont', 0, 1), ('wge', 0)]
+        add(kind='clone', desc=dict(stages=stages, coupling=coupling, parent=[('w2',)]))
     return items
 
 
@@ -272,7 +287,9 @@ def run(item):
             V('clone:p-differs', 'p', 'parameter values of the cloned OCP %s differ from the directly declared one %s (a value set on one clone leaked?)' % (pa, pb))
         else:
             ch.proved.append('clone parameter values == direct')
-        tpl, bt = master.templates['tpl']
+        tkey = desc['stages'][0]['clone_of']
+        tpl, bt = master.templates[tkey]
+        th = desc['stages'][0].get('tpl_h') or (('num', Fr(0)), ('num', Fr(1)))
         spec_t = desc['stages'][0]['spec']
         for p_ in spec_t.params:
             if p_.grid == '' and p_.value is not None:
@@ -283,7 +300,7 @@ def run(item):
                 if stored is None or not close(stored, float(p_.value)):
                     V('template-changed', 'template parameter %s' % p_.name, 'the value stored in the template changed from %s to %s after set_value on its clones' % (float(p_.value), stored))
         n_con = sum(len(v) for v in tpl._constraints.values())
-        if len(tpl.states) != len(bt.xs) or n_con != len(spec_t.cons) or tpl._T != 1 or tpl._t0 != 0:
+        if len(tpl.states) != len(bt.xs) or n_con != len(spec_t.cons) or tpl._T != float(th[1][1]) or tpl._t0 != float(th[0][1]):
             V('template-changed', 'template', 'template content changed by cloning/transcription: states %d constraints %d T %s t0 %s' % (len(tpl.states), n_con, tpl._T, tpl._t0))
         else:
             ch.proved.append('template unchanged')
